@@ -591,14 +591,24 @@ class RDBStorage(BaseStorage, BaseHeartbeat):
         trial = models.TrialModel.find_or_raise_by_id(trial_id, session)
         self.check_trial_is_updatable(trial_id, trial.state)
 
-        trial_param = models.TrialParamModel(
-            trial_id=trial_id,
-            param_name=param_name,
-            param_value=param_value_internal,
-            distribution_json=distributions.distribution_to_json(distribution),
+        trial_param = models.TrialParamModel.find_by_trial_and_param_name(
+            trial, param_name, session
         )
-
-        trial_param.check_and_add(session, trial.study_id)
+        if trial_param is None:
+            trial_param = models.TrialParamModel(
+                trial_id=trial_id,
+                param_name=param_name,
+                param_value=param_value_internal,
+                distribution_json=distributions.distribution_to_json(distribution),
+            )
+            trial_param.check_and_add(session, trial.study_id)
+        else:
+            # Overwrite the existing parameter as the other storages do.
+            distributions.check_distribution_compatibility(
+                distributions.json_to_distribution(trial_param.distribution_json), distribution
+            )
+            trial_param.param_value = param_value_internal
+            trial_param.distribution_json = distributions.distribution_to_json(distribution)
 
     def get_trial_param(self, trial_id: int, param_name: str) -> float:
         with _create_scoped_session(self.scoped_session) as session:
